@@ -82,12 +82,44 @@ EXT_LEAVES = [
 ]
 
 
+# numbers that need more than the 6 significant digits of '%g' / more digits than a short decimal: scales (grid-aligned
+# limits n * scale), limits whose %g text lies outside the limit, and resolutions given as exactly 0 (0 is a value of its
+# own: None = frappy default, 0.0 for absolute_resolution of a double happens to BE the default)
+S1024, S20, S3, SDEC = 1 / 1024, 2.0 ** -20, 1 / 3, 0.0123456789
+PRECISE_LEAVES = [
+    ('scaled', S1024, 0.0, 1024 * S1024),
+    ('scaled', S20, None, None),
+    ('scaled', S3, -9 * S3, 30 * S3),
+    ('scaled', SDEC, 0.0, 100 * SDEC),
+    ('scaled', 0.01, 0.0, 123456789 * 0.01),
+    ('scaled', 0.001, -273151 * 0.001, 1234567 * 0.001, (('unit', 'K'),)),
+    ('double', 0.0, 0.1234567, None, None),
+    ('double', -273.15251, None, None, None),
+    ('double', 1234567.25, 7654321.75, None, None),
+    ('double', -0.1234567, 123456.7, None, None, (('unit', 'V'),)),
+]
+ZERO_RES_LEAVES = [
+    ('double', 0.0, 10.0, None, 0.0),
+    ('double', -5.0, 5.0, 0.0, 0.0),
+    ('double', 0.0, 10.0, 0.5, 0.0),
+    ('double', None, None, 0.0, None),
+    ('scaled', 0.1, 0.0, 10.0, (('absolute_resolution', 0),)),
+    ('scaled', 0.01, -1.0, 1.0, (('absolute_resolution', 0.0), ('relative_resolution', 0.0))),
+    ('scaled', 0.5, 0.0, 10.0, (('relative_resolution', 0),)),
+]
+
+
 def ext_types():
     a, b, c, d, e = EXT_LEAVES
+    p, z = PRECISE_LEAVES, ZERO_RES_LEAVES
     return EXT_LEAVES + [
         ('array', a, 0, 3), ('array', e, 1, 2), ('tuple', (d, b)), ('tuple', (c, ('enum', (('a', 1), ('b', 2))))),
         ('struct', (('a', a), ('b', e)), ('b',)), ('struct', (('a', b),), None),
         ('array', ('tuple', (d, ('string', 0, 3, False))), 0, 2),
+    ] + p + z + [
+        ('array', p[0], 0, 3), ('array', p[6], 1, 2), ('tuple', (p[2], p[7])), ('tuple', (p[4], ('int', 0, 9))),
+        ('struct', (('a', p[3]), ('b', p[8])), ('b',)), ('struct', (('a', p[6]),), None),
+        ('array', z[0], 0, 2), ('tuple', (z[4], z[1])), ('struct', (('a', z[5]), ('b', z[2])), ('b',)),
     ]
 
 
@@ -769,8 +801,9 @@ def run(ctx):
     n = 256
     shards = [types[i::n] for i in range(n)]
     ctx.pmap(shard_fn, [s for s in shards if s], name='roundtrip')
-    ctx.rule = ('enumeration: every type of the catalogue (all leaf kinds with boundary limits, containers to depth 3, plus 12 '
-                'types carrying unit / fmtstr / resolution properties and 10 integer types with limits / values beyond 2^53) x '
+    ctx.rule = ('enumeration: every type of the catalogue (all leaf kinds with boundary limits, containers to depth 3, plus 38 '
+                'types carrying unit / fmtstr / resolution properties (incl. resolutions of exactly 0), scales and limits that need '
+                'more than 6 significant digits, and 10 integer types with limits / values beyond 2^53) x '
                 '{node datatype, client datatype rebuilt from the JSON datainfo} x every valid candidate of the spec-derived '
                 'value catalogue (limits and their neighbours, all grid points of small scaled ranges / edge and power-of-two '
                 'grid points of large ones, every enum member, every byte value, all base64 paddings, quoting-hostile and '
@@ -784,7 +817,7 @@ def run(ctx):
                         depth_histogram={d: sum(1 for t in types if T.depth(t) == d) for d in (1, 2, 3)})
     ctx.assume('values and limits outside the catalogues are not covered',
                'generalConfig.lazy_number_validation is False (the default)',
-               'format strings enumerated: %g (default), %.3f, %.1f',
+               'format strings enumerated: %g (default), %.3f, %.1f; scales 0.1, 0.001, 2, 1e-6, 0.5, 0.01, 1/1024, 2^-20, 1/3, 0.0123456789',
                'what SecopClient.setParameterFromString puts on the wire afterwards is outside this property '
                '(the statement stops at the text form)')
 
